@@ -589,3 +589,74 @@ char *__wrap__strtok_s_chk(char *dest, rsize_t *dmaxp, const char *delim, char *
     return tok_common(1, dest, dmaxp, delim, (void **)ptr, destbos); }
 wchar_t *__wrap__wcstok_s_chk(wchar_t *dest, rsize_t *dmaxp, const wchar_t *delim, wchar_t **ptr, const size_t destbos) {
     return tok_common(4, dest, dmaxp, delim, (void **)ptr, destbos); }
+
+/* ---- OS-facing string functions (events in the format of hos -> $VERIF_WRAPLOG_OS) and wcsnorm_s (format of hnorm ->
+ *      $VERIF_WRAPLOG_NORM) ---- */
+#include <time.h>
+static FILE *olog, *nlog;
+static long oevid, nevid;
+static void oopen(void) { const char *p; static int done; if (done) return; done = 1; p = getenv("VERIF_WRAPLOG_OS"); olog = p ? fopen(p, "a") : NULL; if (olog) setvbuf(olog, NULL, _IOLBF, 0);
+                          p = getenv("VERIF_WRAPLOG_NORM"); nlog = p ? fopen(p, "a") : NULL; if (nlog) setvbuf(nlog, NULL, _IOLBF, 0); }
+static void o_emit(int fn, const char *dest, long dmax, const long *args, int na, const char *ref, long refn, long rc, size_t lenv, int h0) {
+    static unsigned char buf[320];
+    long i, nd = (dest && dmax > 0 && dmax <= 300) ? safe_read(dest, buf, dmax) : 0;
+    fprintf(olog, "{\"id\":%ld,\"fn\":%d,\"dmax\":%ld,\"dnull\":%d,\"pre\":1,\"args\":[", ++oevid, fn, dmax, dest ? 0 : 1);
+    for (i = 0; i < na; i++) fprintf(olog, "%s%ld", i ? "," : "", args[i] > 2000000000L ? 2000000000L : args[i] < -2000000000L ? -2000000000L : args[i]);
+    fprintf(olog, "],\"post\":[");
+    for (i = 0; i < nd; i++) fprintf(olog, "%s%d", i ? "," : "", buf[i]);
+    fprintf(olog, "],\"ref\":[");
+    for (i = 0; i < refn && i < 250; i++) fprintf(olog, "%s%d", i ? "," : "", (unsigned char)ref[i]);
+    fprintf(olog, "],\"refn\":%ld,\"rc\":%ld,\"len\":%ld,\"same\":-1,\"tyear\":0,\"h\":[", refn, rc, lenv > 1000000000UL ? -1L : (long)lenv);
+    for (i = h0; i < h_n && i < 64; i++) fprintf(olog, "%s%d", i > h0 ? "," : "", h_codes[i]);
+    fprintf(olog, "],\"hn\":%d,\"hk\":\"\",\"frame_ok\":true,\"fault\":\"none\"}\n", h_n - h0);
+}
+#define OS_SKIP(dest, dmax, destbos) (!olog || ((dest) && (destbos) != (size_t)-1 && (destbos) != (size_t)(dmax)) || (dmax) > 300)
+extern errno_t __real__strerror_s_chk(char *dest, rsize_t dmax, errno_t errnum, const size_t destbos);
+errno_t __wrap__strerror_s_chk(char *dest, rsize_t dmax, errno_t errnum, const size_t destbos) {
+    errno_t rc; int h0; long a[1]; const char *m; init_once(); oopen();
+    if (OS_SKIP(dest, dmax, destbos)) { nskip++; return __real__strerror_s_chk(dest, dmax, errnum, destbos); }
+    m = strerror(errnum); a[0] = errnum;
+    h0 = h_n; hook_on(); rc = __real__strerror_s_chk(dest, dmax, errnum, destbos); hook_off();
+    o_emit(1, dest, (long)dmax, a, 1, m, (long)strlen(m), rc, 777777, h0); return rc; }
+extern errno_t __real__asctime_s_chk(char *dest, rsize_t dmax, const struct tm *tm, const size_t destbos);
+errno_t __wrap__asctime_s_chk(char *dest, rsize_t dmax, const struct tm *tm, const size_t destbos) {
+    errno_t rc; int h0; long a[10] = {1, 0, 0, 0, 1, 0, 99, 0, 0, 0}; char tb[128]; long refn = -1; init_once(); oopen();
+    if (OS_SKIP(dest, dmax, destbos)) { nskip++; return __real__asctime_s_chk(dest, dmax, tm, destbos); }
+    if (tm) { a[0] = 0; a[1] = tm->tm_sec; a[2] = tm->tm_min; a[3] = tm->tm_hour; a[4] = tm->tm_mday; a[5] = tm->tm_mon; a[6] = tm->tm_year; a[7] = tm->tm_wday; a[8] = tm->tm_yday; a[9] = tm->tm_isdst;
+              if (a[5] >= 0 && a[5] <= 11 && a[7] >= 0 && a[7] <= 6 && a[6] > -2000 && a[6] < 8100 && asctime_r(tm, tb)) refn = (long)strlen(tb); }
+    h0 = h_n; hook_on(); rc = __real__asctime_s_chk(dest, dmax, tm, destbos); hook_off();
+    o_emit(2, dest, (long)dmax, a, 10, tb, refn, rc, 777777, h0); return rc; }
+extern errno_t __real__ctime_s_chk(char *dest, rsize_t dmax, const time_t *timer, const size_t destbos);
+errno_t __wrap__ctime_s_chk(char *dest, rsize_t dmax, const time_t *timer, const size_t destbos) {
+    errno_t rc; int h0; long a[2] = {1, 0}; char tb[128]; long refn = -1; init_once(); oopen();
+    if (OS_SKIP(dest, dmax, destbos)) { nskip++; return __real__ctime_s_chk(dest, dmax, timer, destbos); }
+    if (timer) { a[0] = 0; a[1] = *timer >= 313360441200L ? 2000000000L : (*timer > 1999999999L ? 1999999999L : (long)*timer);
+                 if (*timer >= 0 && *timer < 313360441200L && ctime_r(timer, tb)) refn = (long)strlen(tb); }
+    h0 = h_n; hook_on(); rc = __real__ctime_s_chk(dest, dmax, timer, destbos); hook_off();
+    o_emit(3, dest, (long)dmax, a, 2, tb, refn, rc, 777777, h0); return rc; }
+extern errno_t __real__getenv_s_chk(size_t *len, char *dest, rsize_t dmax, const char *name, const size_t destbos);
+errno_t __wrap__getenv_s_chk(size_t *len, char *dest, rsize_t dmax, const char *name, const size_t destbos) {
+    errno_t rc; int h0; long a[2]; const char *v; size_t lv = 777777; init_once(); oopen();
+    if (OS_SKIP(dest, dmax, destbos)) { nskip++; return __real__getenv_s_chk(len, dest, dmax, name, destbos); }
+    v = name ? getenv(name) : 0; a[0] = len ? 0 : 1; a[1] = name ? 0 : 4;
+    if (v && strlen(v) > 240) { nskip++; return __real__getenv_s_chk(len, dest, dmax, name, destbos); }
+    h0 = h_n; hook_on(); rc = __real__getenv_s_chk(len, dest, dmax, name, destbos); hook_off();
+    if (len) lv = *len;
+    o_emit(4, dest, (long)dmax, a, 2, v, v ? (long)strlen(v) : -1, rc, lv, h0); return rc; }
+
+extern errno_t __real__wcsnorm_s_chk(wchar_t *dest, rsize_t dmax, const wchar_t *src, const wcsnorm_mode_t mode, rsize_t *lenp, const size_t destbos);
+errno_t __wrap__wcsnorm_s_chk(wchar_t *dest, rsize_t dmax, const wchar_t *src, const wcsnorm_mode_t mode, rsize_t *lenp, const size_t destbos) {
+    errno_t rc; int h0; long sv[64], ns, i, nd; static unsigned char buf[4 * 420]; rsize_t lv = 77777;
+    init_once(); oopen(); ns = m_src(src, 4, sv);
+    if (!nlog || !dest || !lenp || ns < 1 || dmax > 400 || dmax < 1 || (mode != WCSNORM_NFD && mode != WCSNORM_NFC) || (destbos != (size_t)-1 && destbos < dmax * sizeof(wchar_t))) { nskip++; return __real__wcsnorm_s_chk(dest, dmax, src, mode, lenp, destbos); }
+    h0 = h_n; hook_on(); rc = __real__wcsnorm_s_chk(dest, dmax, src, mode, lenp, destbos); hook_off();
+    if (lenp) lv = *lenp;
+    nd = safe_read(dest, buf, dmax * 4) / 4;
+    fprintf(nlog, "{\"id\":%ld,\"op\":\"n\",\"mode\":%d,\"dmax\":%ld,\"s\":[", ++nevid, mode == WCSNORM_NFC ? 1 : 0, (long)dmax);
+    for (i = 0; i < ns - 1; i++) fprintf(nlog, "%s%ld", i ? "," : "", sv[i] > 2000000000L ? 2000000000L : sv[i]);
+    fprintf(nlog, "],\"post\":[");
+    for (i = 0; i < nd; i++) { long e = get_el(buf + i * 4, 4); fprintf(nlog, "%s%ld", i ? "," : "", e > 2000000000L ? 2000000000L : e); }
+    fprintf(nlog, "],\"rc\":%ld,\"len\":%ld,\"h\":[", (long)rc, (long)lv);
+    for (i = h0; i < h_n && i < 64; i++) fprintf(nlog, "%s%d", i > h0 ? "," : "", h_codes[i]);
+    fprintf(nlog, "],\"hn\":%d,\"hk\":\"\",\"frame_ok\":true,\"fault\":\"none\"}\n", h_n - h0);
+    return rc; }
